@@ -196,6 +196,9 @@ class WeightingQuery(WrappingQuery):
         WrappingQuery.__init__(self, child)
         self.weighting = weighting
 
+    def _rewrap(self, child):
+        return self.__class__(child, self.weighting)
+
     def matcher(self, searcher, context=None):
         # Replace the passed-in weighting with the one configured on this query
         # (set() returns a changed copy of the context)
